@@ -21,7 +21,7 @@ MANIFEST = {
              'C15_refinement: M = S for every function, both axes, skipna on/off, every ddof, every number of rows and EVERY block layout inside an explicit boolean guard; '
              'C15_axis1_composable_any_layout: block-wise-then-again = fold of the whole row for every associative operation and every partition into blocks (both liftings of a missing value: identity / absorbing); '
              'C15_axis0_is_per_column, C15_noncomposable_is_per_row, C15_values_are_the_columns (consolidation keeps every column); '
-             'C15_table_composable_sound / C15_table_unity_sound against the regenerated table (declaring mean composable breaks the proof with no input); '
+             'C15_table_composable_sound / C15_table_unity_sound / C15_table_ddof_bound (ddof bound in both the skipna and the non-skipna function of var and std) against the regenerated table (declaring mean composable breaks the proof with no input); '
              'C15_skipna_ignores_missing / _all_missing / C15_noskip_propagates_or_rejects; C15_argminmax_refinement + C15_argminmax_first_extreme (first position of the extreme value) + C15_loc_is_label_at_iloc; '
              'C15_cum_keeps_shape / C15_cum_refinement; C15_layout_independent. Refuted/C15.v: three vm_compute witnesses where the faithful M leaves S (known findings). '
              'Correspondence: public Frame calls (every function x axis x skipna x ddof, every block layout of every int/float/bool kind tuple up to width 2 plus six tuples of width 3 (quick) / up to width 3 plus ten tuples of width 4 (thorough), '
@@ -44,7 +44,7 @@ IMPORTS = ('Require Import SF.Prelude SF.Value SF.Dtype SF.Reduce Gen.Gen_c15_ta
            'From Coq Require Import QArith.\nLocal Open Scope Z_scope.')
 RULE = ('api:reduce-all-layouts: every kind tuple over {int64,float64(NaN),bool} up to width 2 + 6 tuples of width 3 (quick) / all up to width 3 + 10 tuples of width 4 (thorough) x EVERY block layout x 10 functions x 2 axes x skipna on/off, fixed data with NaN; plus every layout of 3 (2) int8 / uint8 / int16 columns with values near the limits (column results fit the dtype, row sums do not); '
         'api:reduce-small-axes: 0 and 1 rows x 0..2(3) columns x every layout, and 0 columns x 2,3 rows; api:reduce-numeric / api:argminmax / api:cumulative: random frames (1-5 columns, 1-8 rows, values in {-3..4, .5, NaN}, random layout, ddof in {-1,0,1,2,3}); '
-        'kernel: TypeBlocks.ufunc_axis_skipna with composable and size_one_unity both ways; api:series-reduce / api:index-reduce: one column as a Series, the labels of an Index; api:parity-str-datetime: every layout of 1-2(3) string / datetime64 columns; api:malformed-axis: axis 2,3 must raise; '
+        'kernel: TypeBlocks.ufunc_axis_skipna with composable and size_one_unity both ways; api:series-reduce / api:index-reduce: one column as a Series, the labels of an Index; api:parity-str-datetime: every layout of 1-2(3) string / datetime64 columns; api:malformed-axis: axis 2,3 must raise; api:var-std-ddof-grid: var/std x skipna on/off x ddof 0,1,2 x axis x every layout of an int/float/int frame without missing cells, and on a Series; '
         'api:known-witness: one fixed input per known finding. A case is non-trivial when the frame has several blocks or several rows (kernel: when a flag differs from container.py); distinct = distinct (call, data, layout).')
 ASSUMPTIONS = ['a NumPy reduction of ONE array along an axis computes the mathematical function of each line (oracle; every case re-checks it against S)',
                'util.resolve_dtype on the generated dtypes: equal kinds stay, int64+float64 -> float64, bool with int/float -> object (row_kind in SF/Reduce.v)',
@@ -82,6 +82,7 @@ def _extract_table(repo):
         raise ValueError('class ContainerOperand not found in container.py')
     methods = {n.name: n for n in cls[0].body if isinstance(n, ast.FunctionDef)}
     table = {}
+    ddof_bound = {}
     for name in _TABLE_METHODS:
         fn = methods.get(name)
         if fn is None:
@@ -106,7 +107,18 @@ def _extract_table(repo):
         if dsel not in _DSEL:
             raise ValueError(f'ContainerOperand.{name}: dtypes={dsel} not understood')
         uf = (ast.unparse(kw['ufunc']), ast.unparse(kw['ufunc_skipna']))
-        if uf != _UFUNCS[name]:
+        if name in ('std', 'var'):
+            # the ddof binding of each of the two functions is a table FACT (a theorem demands both bound), not a shape error
+            bound = []
+            for got, base in zip(uf, (f'np.{name}', f'np.nan{name}')):
+                if got == f'partial({base}, ddof=ddof)':
+                    bound.append(True)
+                elif got == base:
+                    bound.append(False)
+                else:
+                    raise ValueError(f'ContainerOperand.{name}: ufunc {got}, expected {base} or partial({base}, ddof=ddof)')
+            ddof_bound[name] = tuple(bound)          # (non-skipna function, skipna function)
+        elif uf != _UFUNCS[name]:
             raise ValueError(f'ContainerOperand.{name}: ufunc pair {uf}, the model assumes {_UFUNCS[name]}')
         table[name] = (kw['composable'].value, kw['size_one_unity'].value, _DSEL[dsel])
     # the dtype tuples the selectors stand for
@@ -122,18 +134,39 @@ def _extract_table(repo):
     for k, v in want.items():
         if consts.get(k) != v:
             raise ValueError(f'util.{k} = {consts.get(k)}, the model assumes {v}')
-    return table
+    return table, ddof_bound
+
+
+# what the property demands of container.py (used to keep generating cases when the source can no longer be read)
+_DEMANDED_TABLE = {
+    'sum': (False, True, 'DsEmpty'), 'prod': (False, True, 'DsEmpty'), 'min': (True, True, 'DsEmpty'), 'max': (True, True, 'DsEmpty'),
+    'mean': (False, True, 'DsInexact'), 'median': (False, True, 'DsInexact'), 'std': (False, False, 'DsFloat'), 'var': (False, False, 'DsFloat'),
+    'all': (True, False, 'DsBool'), 'any': (True, False, 'DsBool'), 'cumsum': (False, True, 'DsEmpty'), 'cumprod': (False, True, 'DsEmpty'),
+}
+
+
+def _table_or_demanded(repo):
+    """The extracted table; when the extractor fails (reported by generate() as a broken translation, which drops the M terms)
+    the table the property demands, so that the specification side of every stratum still runs."""
+    try:
+        return _extract_table(repo)[0]
+    except Exception:  # noqa
+        return dict(_DEMANDED_TABLE)
 
 
 def generate(repo):
-    table = _extract_table(repo)
+    table, ddof_bound = _extract_table(repo)
     rows = ';\n'.join(f'  ({lit.s(name)}, mk_flags {lit.b(c)} {lit.b(u)} {d})' for name, (c, u, d) in table.items())
     cases_ = '\n'.join(f'  | F{name} => mk_flags {lit.b(table[name][0])} {lit.b(table[name][1])} {table[name][2]}' for name in FUNCS)
     text = ('(* GENERATED on every run by tools/sfv/props/c15.py from static_frame/core/container.py (ContainerOperand reductions):\n'
             '   the keyword constants composable / size_one_unity / dtypes of every _ufunc_axis_skipna / _ufunc_shape_skipna call. *)\n'
             'Require Import SF.Prelude SF.Value SF.Dtype SF.Reduce.\n\n'
             'Definition c15_rows : list (string * flags) := [\n' + rows + '\n]%string.\n\n'
-            'Definition c15_table (f : rfunc) : flags :=\n  match f with\n' + cases_ + '\n  end.\n')
+            'Definition c15_table (f : rfunc) : flags :=\n  match f with\n' + cases_ + '\n  end.\n\n'
+            '(* is ddof bound (partial(np.var, ddof=ddof)) in the function used for this skipna? *)\n'
+            'Definition c15_ddof_bound (f : rfunc) (skipna : bool) : bool :=\n  match f, skipna with\n'
+            + ''.join(f'  | F{n}, false => {lit.b(ddof_bound[n][0])}\n  | F{n}, true => {lit.b(ddof_bound[n][1])}\n' for n in ('std', 'var'))
+            + '  | _, _ => true\n  end.\n')
     return {'Gen/Gen_c15_table.v': text}
 
 
@@ -296,7 +329,7 @@ def _reduce_case(ctx, cols, layout, fn, axis, skipna, ddof, index, columns, stra
               f'nblocks:{min(len(layout), 4)}', f'rowkind:{_row_kind(cols) if cols else "-"}',
               'missing:yes' if any(c.dtype.kind == "f" and np.isnan(c).any() for c in cols) else 'missing:no',
               f'class:{cls or "clean"}', f'outcome:{"error" if isinstance(seen, tuple) else "values"}')
-    return Case(stratum, desc, m=f'check_M c15_table {args}', s=f'check_S {args}', tags=tags,
+    return Case(stratum, desc, m=f'check_M c15_table c15_ddof_bound {args}', s=f'check_S {args}', tags=tags,
                 nontrivial=len(layout) > 1 or r > 1)
 
 
@@ -429,6 +462,35 @@ def api_narrow_layouts(ctx):
                     for axis in (0, 1):
                         for skipna in (True, False):
                             yield _reduce_case(ctx, cols, layout, fn, axis, skipna, 1, index, columns, 'api:reduce-all-layouts')
+
+
+def api_ddof_grid(ctx):
+    """var / std: the FULL grid skipna in {True, False} x ddof in {0, 1, 2} x axis, data without missing cells (so that
+    skipna=False is defined), every layout of an int / float / int frame; and the same grid on a column as a Series"""
+    import static_frame as sf
+    cols = [_FIXED['i'][0].copy(), np.array([1.5, 0.5, -2.0, 1.5]), _FIXED['i'][1].copy()]
+    index, columns = _labels(None, 4, 3)
+    for layout in zoo.layouts_for([c.dtype for c in cols]):
+        for fn in ('var', 'std'):
+            for axis in (0, 1):
+                for skipna in (True, False):
+                    for ddof in (0, 1, 2):
+                        yield _reduce_case(ctx, cols, layout, fn, axis, skipna, ddof, index, columns, 'api:var-std-ddof-grid')
+    for c in cols[:2]:
+        s = sf.Series(c, index=index)
+        for fn in ('var', 'std'):
+            for skipna in (True, False):
+                for ddof in (0, 1, 2):
+                    got = _try(lambda: getattr(s, fn)(skipna=skipna, ddof=ddof))
+                    if isinstance(got, Exception):
+                        obs, seen = f'(Err {lit.s(lit.err_class(got))})', ('ERR', type(got).__name__)
+                    else:
+                        obs, seen = f'(Ok {lit.val(got)})', _j(got)
+                    ctx.count(f'ddof-grid:series:{fn}', f'ddof:{ddof}', f'skipna:{skipna}')
+                    yield Case('api:var-std-ddof-grid', {'call': f'Series.{fn}(skipna={skipna}, ddof={ddof})', 'values': _j(c.tolist()),
+                                                         'dtype': str(c.dtype), 'observed': seen},
+                               s=f'check_series {COQ_F[fn]} {lit.b(skipna)} {lit.z(ddof)} {lit.vlist(lit.array_vals(c))} {obs}',
+                               tags={'fn': fn, 'skipna': skipna, 'ddof': ddof, 'series': True})
 
 
 def api_small_axes(ctx):
@@ -620,7 +682,7 @@ def kernel_cases(ctx):
     """TypeBlocks.ufunc_axis_skipna called directly, with the flag combinations container.py never passes as well
     (composable on/off, size_one_unity on/off): the block algorithm itself against M"""
     from static_frame.core.type_blocks import TypeBlocks
-    table = _extract_table(os.environ.get('SF_REPO', '/repo'))
+    table = _table_or_demanded(os.environ.get('SF_REPO', '/repo'))
     rng = ctx.rng
     for _ in range(ctx.n(24, 150)):
         m = rng.randint(2, 5)
@@ -739,6 +801,7 @@ def cases(ctx):
     yield from known_witnesses(ctx)
     yield from api_all_layouts(ctx)
     yield from api_narrow_layouts(ctx)
+    yield from api_ddof_grid(ctx)
     yield from api_small_axes(ctx)
     yield from api_parity_ext(ctx)
     yield from api_malformed(ctx)
